@@ -157,7 +157,7 @@ def run_case(case, drv):
             dec = core.err_kind(e)
         if any(x) and dec != w:
             res.fail("seq:decode", f"get_routes gives {dec} for walks {w}")
-        rep = drv.ask(f"seq.decode {inst} {fl(x)}")
+        rep = drv.ask(f"seq.decode {inst} {fl(FU.vec_to_model(md.get('order') if st == 'ok' else None, x))}")
         head, groups = core.split_reply(rep)
         if head == "ok":
             tk = MU.Toks(groups[0])
